@@ -5,25 +5,25 @@ ROOT = os.path.dirname(os.path.dirname(os.path.abspath(__file__)))
 sys.path.insert(0, ROOT)
 
 LEVEL_TEXT = {
- 'C01': 'Held-on-observed: 10^5-10^7 hostile texts per run (lexeme soup over the whole lexicon, mutated test lines, extreme phrases, case-length-changing Unicode, multi-line assemblies with sentinels) under hostile configurations, unknown language tags, several virtual dates and process zones; oracle = no panic / step budget (hook H1) / CPU watchdog / slot count / slot shape / sentinel values. Totality over all inputs cannot be proved by running; bounded progress replaces "terminates".',
- 'C02': 'Held-on-observed: random and small-exhaustive expression trees rendered in several spacings and separator conventions, compared bit-exactly with an independent IEEE-double evaluation of the same tree; violating cases are shrunk structurally before being classified.',
+ 'C01': 'Held-on-observed: 10^5-10^7 hostile texts per run (lexeme soup over the whole lexicon, mutated test lines, extreme phrases, case-length-changing Unicode, multi-line assemblies with sentinels) under hostile configurations (separators, digits, zones, user unit families with index gaps, custom rules), unknown language tags, several virtual dates and process zones, through execute and through re-used Session objects; thorough tier adds a coverage-guided libFuzzer lens whose artifacts and corpus are re-judged through the driver; oracle = no panic / step budget (hook H1) / CPU watchdog / slot count / slot shape / sentinel values. Totality over all inputs cannot be proved by running; bounded progress replaces "terminates".',
+ 'C02': 'Held-on-observed: random expression trees and all ~45 000 small trees (<= 3 leaves, nested sign prefixes, signed / zero suffixed literals) rendered in several spacings and separator conventions, compared bit-exactly with an independent IEEE-double evaluation of the same tree; violating cases are shrunk structurally before being classified.',
  'C03': 'Held-on-observed: generated straight-line programs (re-binding, self-reference, copies, failing lines, prefix-related multi-word names, every value kind) judged line by line against an executable environment model; numeric lines bit-exact.',
- 'C04': 'Held-on-observed: call histories. A long-lived calculator is compared text by text with calculators that saw another order / nothing before (history independence, variable leaks), and set_text / execute_session histories on re-used and interleaved sessions are compared with one execute of the concatenated program; hook H3 (configuration fingerprint) and the hook log of started lines give the observability.',
- 'C05': 'Held-on-observed: the seven phrases in all operand orders, spellings, currencies and separator conventions, operands also via variables, against exact rational formulas with a cancellation-safe tolerance; kind and currency must match exactly.',
- 'C06': 'Held-on-observed: money literal spellings, all rated currency pairs, money arithmetic, and histories of update_currency interleaved with evaluations against a model rate table in exact rationals; hook H3 confirms that an update touches exactly one rate.',
- 'C07': 'Held-on-observed: numbers, percentages, money (all currencies) and unit quantities printed from chosen doubles on rounding boundaries under every digits / removal / rounding / separator setting, judged by exact decimal arithmetic.',
- 'C08': 'Held-on-observed: metamorphic - the same structured line rendered under two separator conventions must denote the same value, and each print must be the C07 rendering in its own convention; unit conversions and values through variables weighted up.',
- 'C09': 'Held-on-observed: date spellings of both languages, impossible dates, date arithmetic in days/weeks/months/years, date differences and day words under several virtual dates, against Python datetime; known structural defects are matched by defect models, anything else is a fresh violation.',
+ 'C04': 'Held-on-observed: call histories. A long-lived calculator is compared text by text with calculators that saw another order / nothing before (history independence, variable leaks, near-duplicate value families, rules registered after evaluations), and set_text / execute_session histories on re-used and interleaved sessions (texts growing and shrinking, the identical text set again, language switches, texts never evaluated) are compared with one execute of the concatenated program; hook H3 (configuration fingerprint) and the hook log of started lines give the observability.',
+ 'C05': 'Held-on-observed: the seven phrases in all operand orders, spellings, all 159 unambiguous currencies (rated or not) and separator conventions, operators glued to operands, operands also via variables, against exact rational formulas with a cancellation-safe tolerance; kind and currency must match exactly.',
+ 'C06': 'Held-on-observed: money literal spellings, all rated currency pairs, money arithmetic, same-currency operations for every configured currency, and histories of update_currency interleaved with evaluations against a model rate table in exact rationals; hook H3 confirms that an update touches exactly one rate.',
+ 'C07': 'Held-on-observed: numbers, percentages, money (all currencies) and unit quantities printed from chosen doubles on rounding boundaries under every digits (0..40) / removal / rounding / separator setting (incl. multi-byte and multi-character separators), judged by exact decimal arithmetic.',
+ 'C08': 'Held-on-observed: metamorphic - the same structured line rendered under two separator conventions must denote the same value, and each print must be the C07 rendering in its own convention; unit conversions and values through variables weighted up; single literals against their canonical value, both orders of the separator setters, varied format settings, literals inside registered rule patterns.',
+ 'C09': 'Held-on-observed: date spellings of both languages, impossible dates, date arithmetic in days/weeks/months/years, negative spans, dates moved to another zone, date differences and day words under several virtual dates and default zones, against Python datetime; known structural defects are matched by defect models, anything else is a fresh violation.',
  'C10': 'Held-on-observed: duration parts, runs, sums, differences and "as" conversions in en and tr against the unit lengths of the statement; value exact in seconds, print must be the greedy decomposition in the language\'s words.',
  'C11': 'Held-on-observed: time spellings, anchoring, conversion over the admissible zone table and GMT forms, shifting and differences under several default zones and process TZ values, against (wall - off1 + off2) mod 24 h; set_timezone / get_time_offset protocol checked against the table.',
  'C12': 'Held-on-observed: all 332 in-kind ordered unit pairs and all cross-kind pairs under the four separator conventions, round trips / two-step conversions through variables, and quantity arithmetic, against exact standard definitions (not config.json).',
- 'C13': 'Held-on-observed: based literals, arithmetic keeping the left base, conversion phrases incl. fractional N, and the round trip of every printed literal, against Python int()/format() on boundary and random integers up to 2^63-1.',
+ 'C13': 'Held-on-observed: based literals, arithmetic keeping the left base, operation chains with division and fractions (also through variables), varied number format settings, conversion phrases incl. fractional N, and the round trip of every printed literal, against Python int()/format() on boundary and random integers up to 2^63-1.',
  'C14': 'Held-on-observed: timestamp -> date-time, date / time / date-time -> timestamp (directly and through variables) and both inverse laws under several default zones and virtual dates, against Python datetime / timegm; printed timestamps must show every digit.',
  'C15': 'Held-on-observed: the printed form of results of every kind is typed back under the same configuration and language and must print identically (8 kinds x 4 separator conventions x 3 digit settings x 2 languages).',
- 'C16': 'Held-on-observed: metamorphic - widening blanks, adding blanks at both ends, appending comments drawn from the lexicon and re-casing the word classes named by the statement must not change the value; blank / comment-only lines must be empty.',
- 'C17': 'Held-on-observed: invariant monitor on the highlight tokens of every line of hostile and multi-byte-laden texts (character spans, ordered, non-overlapping) plus exact expected spans for number / operator / comment tokens of structured lines.',
- 'C18': 'Held-on-observed: histories of add_rule / delete_rule / add_dynamic_type / add_dynamic_type_item interleaved with evaluations against a model calculator; after every history the calculator must agree with a fresh one on which only the surviving registrations were replayed (probe battery), hook H3 as lead.',
- 'C19': 'Held-on-observed: metamorphic - word-dependent forms translated word by word (every configured spelling) into every configured language must have the same value as in English and print in the language\'s own words (also judged against the C09/C10 oracles); word-independent forms must be identical under every language tag.',
+ 'C16': 'Held-on-observed: metamorphic - widening blanks, adding blanks at both ends, appending comments drawn from the lexicon and re-casing the word classes named by the statement (incl. currency alias words, WST/TMT as zones, names re-bound in another spelling, multi-byte capitals before month names, en and tr) must not change the value; blank / comment-only lines must be empty.',
+ 'C17': 'Held-on-observed: invariant monitor on the highlight tokens of every line of hostile and multi-byte-laden texts (character spans, ordered, non-overlapping) plus exact expected spans for number (incl. based) / operator / comment tokens of structured lines, some longer than 65 536 characters.',
+ 'C18': 'Held-on-observed: histories of add_rule / delete_rule / add_dynamic_type / add_dynamic_type_item interleaved with evaluations against a model calculator; after every history the calculator must agree with a fresh one on which only the surviving registrations were replayed (probe battery), hook H3 as lead; language-dependent and one-word patterns; a declined pattern match must behave like an absent pattern.',
+ 'C19': 'Held-on-observed: metamorphic - word-dependent forms translated word by word (every configured spelling) into every configured language must have the same value as in English and print in the language\'s own words (also judged against the C09/C10 oracles); word-independent forms (incl. labels containing table words, one phrase repeated up to 30 times) must be identical under every language tag.',
 }
 KIND = {
  'C01': 'hostile generated workload + panic / step-budget (hook H1) / CPU-watchdog / slot-shape / sentinel monitors on the API-boundary event log',
